@@ -24,8 +24,9 @@ step).  Reproducibility: every configuration is fitted twice in-process and once
 (spawned /venv/bin/python, same environment): pre_transformation, losses, standard deviations, fitted log-density and
 the predictor JSON minus its timestamp are compared by bytes.  jit on/off: L-BFGS-B results agree within
 |grad(jit)| + |grad(no jit)| (the objective is 1-strongly convex: prior |z|^2/2 + convex likelihood part), Adam / ADVI
-after ONE step within rounding; for more steps the difference is measured and reported, not asserted (no derived
-bound exists for Adam's normalised steps).
+after ONE step within rounding; for 2..100 steps within the margin 1e-6 (1 + |z|) on parameters and trace (no derived
+bound exists for Adam's normalised steps: the margin sits nine orders above the differences met on the unchanged tree
+and far below the effect of a changed step schedule); for longer runs the difference is measured and reported only.
 """
 import hashlib
 import json
@@ -141,6 +142,15 @@ def plan(ctx):
         return v + 1 if v % 10 == 0 else v
     grids = {"adam": [1, int(rng.integers(2, 6)), int(rng.integers(6, 13)), off_ten(13, 38)],
              "advi": [1, int(rng.integers(2, 5)), int(rng.integers(5, 9)), off_ten(11, 24)]}
+    # one longer run per optimiser whose length is not a multiple of any usual block size (8, 10, 16, 25, 32, 50): loops that run
+    # whole blocks in one compiled call and the remainder step by step must keep the step counter
+    def off_blocks(lo, hi):
+        while True:
+            v = int(rng.integers(lo, hi))
+            if all(v % b not in (0, 1) for b in (8, 10, 16, 25, 32, 50)):
+                return v
+    grids["adam"].append(off_blocks(52, 96))
+    grids["advi"].append(off_blocks(27, 47))
     quick_grids = grids
     if ctx.thorough:
         grids = {"adam": [1, 2, 7, 40, 200], "advi": [1, 2, 5, 30, 60]}
@@ -387,7 +397,22 @@ def run(ctx):
                 bad(cfg, "jit-agreement", "jit on/off results differ after one step by more than rounding",
                     {"difference": float(np.abs(za - zb).max()), "allowed_error": float(tol1.max())})
         else:
-            measured.setdefault("jit_diff_%s_n_iter>1 (reported, not asserted)" % cfg["optimizer"], []).append(diff)
+            measured.setdefault("jit_diff_%s_n_iter>1" % cfg["optimizer"], []).append(diff)
+            # more than one step: rounding differences between the compiled and the op-by-op gradient (<= a few ulp per entry) pass through
+            # n_iter updates of a 1-strongly convex problem; on the unchanged tree the two runs differ by 0 (Adam) to 3e-15 (ADVI).
+            # A margin of 1e-6 (1 + |z|) - nine orders of magnitude above that, five below the effect of any change of the step
+            # schedule (a restarted step counter moves z by > 1e-2) - is asserted for runs of at most 100 steps; longer runs are
+            # reported only.
+            if cfg["n_iter"] <= 100:
+                allowed = 1e-6 * (1 + float(np.linalg.norm(za)))
+                ratio("jit-agreement-many-steps", diff / allowed)
+                la, lb = np.asarray(a.losses, dtype=float), np.asarray(b.losses, dtype=float)
+                ldiff = float(np.abs(la - lb).max()) if la.shape == lb.shape and la.size else float("inf")
+                lallowed = 1e-6 * (1 + float(np.abs(lb).max(initial=0.0)))
+                if not diff <= allowed or not ldiff <= lallowed:
+                    bad(cfg, "jit-agreement", "jit on/off results differ after %d steps by far more than rounding" % cfg["n_iter"],
+                        {"difference": diff, "allowed_error": allowed, "trace_difference": ldiff, "trace_allowed_error": lallowed,
+                         "first_trace_index_differing": int(np.argmax(np.abs(la - lb) > lallowed)) if la.shape == lb.shape and la.size else None})
 
     # ---- documented options that draw a subsample of the cells: d_method="fractal" samples when there are more than 500 cells.
     #      Preparing the same problem several times in one process gives the same dimensionality, mean and starting point, bit for bit.
